@@ -14,6 +14,8 @@ CHECKS = {
             "note": NOTE_ORD, "technique": "Coq proof (induction over draw stream and rows; mod arithmetic) + vm_compute correspondence"},
     "C10": {"text": "Coq theorems over Q for every parent tensor, F configuration, jitter and draw stream: V = X0 + ((0 + d1) + d2)... with d_k = Feff_k*(X_{2k-1}-X_{2k}), one F per mutant and pair inside [lo,hi], jitter factor within gamma/2 of 1 and centred, exact when F scalar and gamma None (no draws consumed); + bit-exact correspondence of DEM.de_mutation / DEM.do including the order of additions",
             "note": NOTE_Q, "technique": "Coq proof (structural induction over pairs, nra) + vm_compute correspondence"},
+    "C02": {"text": "Coq theorems for any strict-weak-ordered number type (instantiated at Q without axioms): replacement rule = the three cases of the statement, slot k holds parent or own offspring and the offspring iff better and not a duplicate of a member / earlier offspring, size preserved, result is the slots stably sorted by (CV, F), no identity twice, and for every reachable state of a run (induction over generations) the best never gets worse; + exact correspondence of ImprovementReplacement.do (identities, ranks, masks) incl. huge/infinite objectives",
+            "note": NOTE_ORD, "technique": "Coq proof (lexicographic strict weak order, insertion-sort invariants, induction over the run) + vm_compute correspondence"},
     "C09": {"text": "Coq theorems for every population size, parent count, rank assignment and choice-draw stream: if a selection returns P then rows have the documented layout, randomly drawn parents are pairwise distinct, differ from the target and the fixed best, indices are valid; ranked = permutation of a 'rand' row with best-ranked base and (better, worse) pairs; + exact correspondence of DES._do with recorded and collision-scripted draws",
             "note": NOTE_ORD + " Termination of the rejection loops is not claimed.", "technique": "Coq proof (loop invariant of the redraw loop, insertion-sort permutation/sortedness) + vm_compute correspondence"},
 }
